@@ -48,7 +48,7 @@ var seededACS = []string{
 }
 
 func genC02Case(t *rapid.T) C02Case {
-	spec := genSSOWorld(t, worldOpts{bindings: []string{world.BindPost, world.BindRedirect, world.BindPost, world.BindRedirect, world.BindArtifact}, minACS: 1, maxACS: 4, maxSPs: 3, customSSO: true, issuerModes: []string{"static", "host"}})
+	spec := genSSOWorld(t, worldOpts{bindings: []string{world.BindPost, world.BindRedirect, world.BindPost, world.BindRedirect, world.BindArtifact}, minACS: 1, maxACS: 4, maxSPs: 3, customSSO: true, issuerModes: []string{"static", "host"}, oddLocations: true})
 	c := C02Case{Flow: rapid.SampledFrom([]string{"sso", "sso", "sso", "logout", "callback", "reregister"}).Draw(t, "flow")}
 	s := SSOCase{Spec: spec, Host: rapid.SampledFrom(reqHosts).Draw(t, "host")}
 	s.SP = rapid.IntRange(0, len(spec.SPs)-1).Draw(t, "sp")
@@ -252,6 +252,24 @@ func c02CheckReply(stage string, rep obs.Reply, allowed []allowedTarget, bodyAll
 		if sameURL(d.Target, allowed[i].URL) && (allowed[i].Binding == "" || allowed[i].Binding == method) {
 			hit = &allowed[i]
 			break
+		}
+	}
+	if hit == nil && method == world.BindPost && d.Target == "#ZgotmplZ" {
+		// html/template's inert placeholder: what a form action becomes when the registered URL has a scheme other than
+		// http / https / mailto (C17). The page then posts nowhere; Destination and Recipient must still be the registered string.
+		for i := range allowed {
+			if sch, _, ok := strings.Cut(allowed[i].URL, ":"); ok && !strings.ContainsAny(sch, "/?#") && !strings.EqualFold(sch, "http") && !strings.EqualFold(sch, "https") && !strings.EqualFold(sch, "mailto") && (allowed[i].Binding == "" || allowed[i].Binding == method) {
+				// several registered entries may have become the placeholder: the one the message names, if any
+				if hit == nil {
+					hit = &allowed[i]
+				}
+				if d.Doc != nil {
+					if resp := obs.ReadResponse(obs.FindResponse(d.Root())); resp != nil && resp.Destination == allowed[i].URL {
+						hit = &allowed[i]
+						break
+					}
+				}
+			}
 		}
 	}
 	if hit == nil {
